@@ -4,16 +4,23 @@
  * request: {"argv":[...extra command-line words given to the Engine constructor...],
  *           "list":bool,                      print the registry (config::help() + show_aliases()) on stdout and stop
  *           "read0":[[realname,type],...]     items to read right after the Engine creation
+ *           "read_end":[[realname,type],...]  items to read after the last op
  *           "ops":[{"how":"parse"|"parse_raw"|"string"|"typed"|"c", "name":..., "value":<string, or typed JSON value for typed/c>,
  *                   "read":[[realname,type],...]}]}       items to read back after the op (type: int|double|boolean|string)
  * answer : one JSON line per step, flushed at once (an op may abort the process through xbt_die/xbt_assert):
  *            {"step":"engine"}                                     the Engine exists (argv was accepted)
- *            {"step":i,"ok":true|false,"exc":"<type>","msg":...,"read":{"name":value,...}}
+ *            {"step":i,"ok":true|false,"exc":"<type>","msg":...,"read":{"name":value,...},"bound":{...}}
+ *            ("bound": the C++ variables that a few items are bound to, e.g. sg_precision_timing, Context::stack_size)
  *          doubles are reported as hexfloat strings.  A C++ exception escaping the Engine constructor is reported as
  *            {"step":"engine","exc":...}.
  * Every case runs in a forked child (the configuration is global state and callbacks may abort).  No oracle here.
+ * config_driver creates the Engine once before forking (so "argv" is ignored); config_argv_driver creates it in each child;
+ * config_inproc_driver never forks: one Engine, cases run one after the other in the server process, which restores every
+ * item after each case (step "restored"); only for cases whose items have store-only callbacks (chosen by the Python side).
  */
 #include "simgrid/s4u/Engine.hpp"
+#include "src/kernel/context/Context.hpp"
+#include "src/kernel/lmm/System.hpp"
 #include "xbt/config.h"
 #include "xbt/config.hpp"
 #include "xbt/log.h"
@@ -52,6 +59,24 @@ static std::string exc_name(const std::exception& e)
   return r;
 }
 
+static int run_ops(const json& in);
+
+extern simgrid::config::Flag<double> _smpi_cfg_cpu_threshold;
+
+/* the variables that some items are bound to: they show that the item's callback ran */
+static json bound_vars()
+{
+  using simgrid::kernel::context::Context;
+  return json{{"precision/timing", hexf(sg_precision_timing)},
+              {"precision/work-amount", hexf(sg_precision_workamount)},
+              {"maxmin/concurrency-limit", sg_concurrency_limit},
+              {"contexts/stack-size", Context::stack_size},
+              {"contexts/guard-size", Context::guard_size},
+              {"contexts/nthreads", Context::parallel_contexts},
+              {"smpi/cpu-threshold", hexf(_smpi_cfg_cpu_threshold.get())},
+              {"pagesize", xbt_pagesize}};
+}
+
 static json read_items(const json& what)
 {
   json r = json::object();
@@ -73,9 +98,14 @@ static json read_items(const json& what)
   return r;
 }
 
+static simgrid::s4u::Engine* engine = nullptr;
+
 static int run_case(const std::string& text)
 {
   json in = json::parse(text);
+  if (engine != nullptr) { // created before the fork (preload): only the ops are executed here
+    return run_ops(in);
+  }
   std::vector<std::string> args{"config_driver"};
   if (in.contains("argv"))
     for (auto const& a : in["argv"])
@@ -86,12 +116,16 @@ static int run_case(const std::string& text)
   argv.push_back(nullptr);
   int argc = static_cast<int>(args.size());
   try {
-    static simgrid::s4u::Engine* e = new simgrid::s4u::Engine(&argc, argv.data());
-    (void)e;
+    engine = new simgrid::s4u::Engine(&argc, argv.data());
   } catch (const std::exception& e) {
     emit(json{{"step", "engine"}, {"exc", exc_name(e)}, {"msg", std::string(e.what()).substr(0, 300)}});
     return 0;
   }
+  return run_ops(in);
+}
+
+static int run_ops(const json& in)
+{
   json first{{"step", "engine"}};
   if (in.contains("read0"))
     first["read"] = read_items(in["read0"]);
@@ -149,18 +183,63 @@ static int run_case(const std::string& text)
     }
     if (op.contains("read"))
       o["read"] = read_items(op["read"]);
+    o["bound"] = bound_vars();
     emit(o);
   }
-  emit(json{{"step", "end"}});
+  json last{{"step", "end"}};
+  if (in.contains("read_end"))
+    last["read"] = read_items(in["read_end"]);
+  emit(last);
+#ifdef VF_CONFIG_INPROC
+  // no fork here: put every item back to the value it had when this process read it first, and say whether that worked
+  if (in.contains("read_end")) {
+    static json baseline;
+    if (baseline.is_null())
+      baseline = first["read"];
+    bool ok = true;
+    try {
+      for (auto const& it : in["read_end"]) {
+        std::string name = it[0], type = it[1];
+        if (not baseline.contains(name) || baseline[name] == last["read"][name])
+          continue;
+        if (type == "int")
+          cfg::set_value<int>(name.c_str(), baseline[name].get<int>());
+        else if (type == "double")
+          cfg::set_value<double>(name.c_str(), strtod(baseline[name].get<std::string>().c_str(), nullptr));
+        else if (type == "boolean")
+          cfg::set_value<bool>(name.c_str(), baseline[name].get<bool>());
+        else
+          cfg::set_value<std::string>(name.c_str(), baseline[name].get<std::string>());
+      }
+      ok = read_items(in["read_end"]) == baseline;
+    } catch (...) {
+      ok = false;
+    }
+    emit(json{{"step", "restored"}, {"ok", ok}});
+  }
+#endif
   return 0;
 }
 
 static void preload()
 {
-  // nothing can be initialised before the fork: the Engine constructor is what parses --cfg
+#ifndef VF_CONFIG_ARGV
+  // The Engine is created once in the server; every case runs in a forked child that inherits it (creating an Engine in
+  // each child costs ~30 ms of page faults here).  config_argv_driver is the same program without this preload: there the
+  // Engine constructor runs in the child, with the case's --cfg words on its command line.
+  static int argc      = 1;
+  static char name[]   = "config_driver";
+  static char* argv[2] = {name, nullptr};
+  engine               = new simgrid::s4u::Engine(&argc, argv);
+#endif
 }
 
 int main(int argc, char** argv)
 {
+#ifdef VF_CONFIG_INPROC
+  xbt_log_control_set("xbt_cfg.thres:warning"); // "Configuration change" lines would fill the error file
+  return vf_main(argc, argv, run_case, nullptr, true);
+#else
   return vf_main(argc, argv, run_case, preload);
+#endif
 }
